@@ -220,7 +220,7 @@ def run(chk: Check) -> None:
     for _ in range(n_e2e):
         fields = [(gen_name(rng), gen_text(rng, 6)) for _ in range(rng.choice([0, 1, 2, 3]))]
         files = [(gen_name(rng), gen_payload(rng, b"WerkzeugFormPart"),
-                  rng.choice([gen_name(rng) + ".bin", gen_name(rng), "", " ", "a b.txt"]),
+                  rng.choice([gen_name(rng) + ".bin", gen_name(rng), "", " ", "a b.txt", "<draft>", "<>", "<über>", "a<b>c", "<x", "y>"]),
                   rng.choice(["application/octet-stream", "text/plain", "image/png"])) for _ in range(rng.choice([0, 0, 1, 2]))]
         data = MultiDict()
         order = [("f", x) for x in fields] + [("F", x) for x in files]
